@@ -32,6 +32,28 @@ def arm_variants(pat):
 def run(ck):
     if getattr(ck, 'depth', 0) >= 2:
         return      # a shared run of a shared run: nothing of it is selected, and mutual sharing must end somewhere
+    _run(ck)
+    _shares(ck)
+
+
+def _shares(ck):
+    L = ck.facts.lib
+    ck.rule('R13.8', 'the by-name method lookup hands out every overload of a name, or an error')
+    overload_table(ck, L)
+    import core as _core
+    import rules.c04 as c04
+    s4 = _core.Shared(ck, 'R13.9', lambda r, k: r == 'R4.6' or (r == 'R4.4' and k in ('only-error-free-builds-continue', 'guard-tests-the-build-diagnostics')), 'C04:',
+                      ' [a handler is rejected by an error diagnostic: the document is refused only if has_error() sees it]')
+    ck.rule('R13.9', 'a rejected handler stops the document: the error gate and the header write (shared with C04, C15)')
+    c04.run(s4)
+    import rules.c15 as c15
+    s15 = _core.Shared(ck, 'R13.9', lambda r, k: (r == 'R15.4' and k.endswith('|skipped-only-if-same-bytes')) or (r == 'R15.5' and k in ('header-path-gets-header', 'both-outputs-written')), 'C15:',
+                       ' [handlers live in the support header only: a header that is not rewritten keeps the old connections]')
+    c15.run(s15)
+    ck.floor('R13.9', s4.count + s15.count, 7, 'shared C04 / C15 obligations')
+
+
+def _run(ck):
     F = ck.facts
     L = F.lib
     ck.explanation = (
@@ -439,3 +461,60 @@ def run(ck):
                 chain = [m.get('m') for m in walk(c['recv']) if m.get('k') == 'MCall']
                 ck.ob('R13.7', 'arguments-evaluated-in-order#%d' % n_arg, not any(m in LF.FILTERS | {'rev'} for m in chain), L.loc(c), 'arguments.iter().map(walk_rvalue): %s' % chain)
         ck.floor('R13.7', n_arg, 1, 'argument-list walks in walk_expr')
+
+
+def overload_table(ck, L, rule='R13.8'):
+    """The by-name method lookup hands out every overload of the name, or an error: `uniquify_methods` can only reject an ambiguous
+    handler if it sees all candidates."""
+    g = L.fn('typemap::function::MethodDataTable::get_method_with')
+    fm = L.fn('typemap::function::MethodDataTable::from_meta')
+    if g is None or fm is None:
+        ck.floor(rule, 0, 2, 'fns MethodDataTable::get_method_with / from_meta')
+        return
+    ck.analysed(g['path'])
+    ck.analysed(fm['path'])
+    bs = H.binding_sites(g)
+    # count = number of consecutive entries with this name, from the partition point
+    cnt = next((b for b in bs.values() if b['kind'] == 'let' and b['bind'].get('name') == 'count'), None)
+    m = next((n for n in walk(g['body']) if n.get('k') == 'Match' and cnt is not None and (H.root_local(n['e']) or {}).get('hid') == cnt['bind']['hid'] and H.strip_refs(n['e']).get('k') == 'Path'), None)
+    ok = False
+    if cnt is not None:
+        t = pp(cnt['node']['init'], maxlen=200)
+        ok = 'take_while' in t and t.rstrip().endswith('.count()') and 'Eq name' in t.replace('(', ' ').replace(')', ' ') and not re.search(r'\b(filter|skip|step_by)\b', t)
+    ck.ob(rule, 'count-is-the-run-of-equal-names', ok and m is not None, L.loc(cnt['node']) if cnt else L.loc(g['body']), 'count = methods[start..].iter().take_while(|d| d.name == name).count(); the result is decided by `match count`')
+    if m is None:
+        ck.ob(rule, 'dispatch-on-count', False, L.loc(g['body']), 'no `match count` found: which of None / Unique / Overloaded is returned is decided by something else than the number of entries with that name')
+        return
+    ctors = [c for c in walk(g['body']) if c.get('k') == 'Path' and (c.get('def') or '').startswith('typemap::function::MethodMatches::')]
+    seen = {}
+    for c in ctors:
+        var = c['def'].split('::')[-1]
+        arm = next((a for a in H.ancestors(g, c) if a.get('k') == 'Arm' and H.parents(g).get(id(a)) is m), None)
+        pat = pp(arm['pat']) if arm is not None else None
+        seen.setdefault(var, []).append(pat)
+        par = H.parents(g).get(id(c))
+        as_map_fn = par is not None and par.get('k') == 'MCall' and par.get('m') == 'map' and 'Result<' in (L.ty(par['recv']) or '')
+        if var == 'Unique':
+            ck.ob(rule, 'unique-only-for-one-entry', pat == '1' and as_map_fn and 'guard' not in (arm or {}), L.loc(c),
+                  'MethodMatches::Unique wraps Method::new(..) of the single entry, under `1 =>`' if pat == '1' and as_map_fn else
+                  'MethodMatches::Unique is built outside the `1 =>` arm of `match count` (under %s): a name with several overloads can be reported as unique' % pat)
+        elif var == 'Overloaded':
+            chain = []
+            x = H.strip_refs(par['recv']) if as_map_fn else {}
+            while x.get('k') == 'MCall':
+                chain.append(x.get('m'))
+                x = H.strip_refs(x['recv'])
+            rng = pp(x, maxlen=80)
+            whole = x.get('k') == 'Index' and 'start' in rng and 'count' in rng
+            okc = as_map_fn and list(reversed(chain)) == ['iter', 'map', 'collect'] and whole and arm is not None and arm['pat'].get('k') in ('Wild', 'Bind') and 'guard' not in arm
+            ck.ob(rule, 'overloaded-holds-every-entry-or-fails', okc, L.loc(c),
+                  'Overloaded = methods[start..start + count].iter().map(Method::new).collect::<Result<Vec<_>, _>>(): all entries or the first error' if okc else
+                  'the overload set is built by `%s` over `%s` (arm %s): entries can be left out, so an ambiguous signal name can look unambiguous' % ('.'.join(reversed(chain)) or pp(par or c, maxlen=50), rng, pat))
+    ck.ob(rule, 'both-kinds-built', sorted(seen) == ['Overloaded', 'Unique'] and all(len(v) == 1 for v in seen.values()), L.loc(m), 'constructors used in get_method_with: %s' % {k_: v for k_, v in seen.items()})
+    # binary search precondition: the table is sorted by name, and nothing but the access filter drops entries
+    srt = [c for c in H.calls_in(fm['body']) if c.get('m') in ('sort_by', 'sort_by_key', 'sort_unstable_by', 'sort_unstable_by_key', 'sort_by_cached_key')]
+    ok = len(srt) == 1 and 'name' in pp(srt[0], maxlen=120)
+    ck.ob(rule, 'table-sorted-by-name', ok, L.loc(srt[0]) if srt else L.loc(fm['body']), 'from_meta sorts the entries by name (partition_point / take_while rely on it)')
+    flt = [c for c in H.calls_in(fm['body']) if c.get('m') in ('filter', 'filter_map', 'skip', 'take', 'dedup', 'dedup_by_key', 'dedup_by', 'retain', 'truncate')]
+    ok = len(flt) == 1 and flt[0]['m'] == 'filter_map' and 'access' in pp(flt[0], maxlen=160) and 'Eq' in pp(flt[0], maxlen=160)
+    ck.ob(rule, 'only-the-access-filter-drops-entries', ok, L.loc(flt[0]) if flt else L.loc(fm['body']), 'entries are left out by `m.access == access` only (%d narrowing calls)' % len(flt))
